@@ -3,6 +3,7 @@
 from __future__ import annotations
 
 import ast
+import re
 
 from ..core import AnalysisError, Repo, Report, call_name, norm, parents_map, walk_local
 from ..dataflow import DefUse
@@ -215,3 +216,65 @@ def slot_rewrites_are_self_referential(repo: Repo, rep: Report, rule: str, only_
             rep.check(not others, rule, f"{f.short}: new value of .{fld} is built from .{fld} only",
                       f"reads only .{fld}" if not others else f"also reads {['.' + o for o in others]}: .{fld} is overwritten with data of another slot", f.loc(st))
     rep.floor(rule, "slot rewrites in the reference-mapping helpers", n, 3)
+
+
+def zero_is_a_value(repo: Repo, rep: Report, rule: str) -> None:
+    """A slot that holds an optional integer (a constant operand, a folded value, an inlined literal) is tested for presence with `is None` / `is not None`:
+    under a truthiness test the value 0 looks like "absent", and `0 < x` or a value folded to 0 silently takes the branch written for "no constant"."""
+    from .util import canon
+
+    rep.rule(rule, "zero is a value: wherever the compiler holds an optional integer — the result of a function annotated `int | None` (constant extraction, folding, "
+             "inlining) or a `*constant*` entry read from a placement or condition row — its presence is tested with `is None` / `is not None`, never by truthiness "
+             "(`if first_constant and ...` treats the literal 0 as absent)")
+    opt_funcs = set()
+    for f in repo.all_funcs():
+        r = f.node.returns
+        if r is None:
+            continue
+        t = norm(r)
+        if ("int | None" in t or "Optional[int]" in t or "None | int" in t) and not any(w in t for w in ("str", "Ref", "Signal", "bool")):
+            opt_funcs.add(f.name)
+    rep.floor(rule, "functions returning an optional integer", len(opt_funcs), 5)
+
+    def optional_int_source(text: str) -> str | None:
+        m = re.match(r"(?:[\w\.\(\)\[\]' ]*\.)?(\w+)\(", text)
+        head = text.split("(", 1)[0].rsplit(".", 1)[-1] if "(" in text else ""
+        if head in opt_funcs and text.endswith(")"):
+            return head + "(...)"
+        m2 = re.fullmatch(r".*\.get\('([\w]*constant[\w]*)'\)", text)
+        if m2:
+            return f".get('{m2.group(1)}')"
+        return None
+
+    def truthy_names(t: ast.AST, out: list) -> None:
+        if isinstance(t, ast.Name):
+            out.append(t)
+        elif isinstance(t, ast.BoolOp):
+            for x in t.values:
+                truthy_names(x, out)
+        elif isinstance(t, ast.UnaryOp) and isinstance(t.op, ast.Not):
+            truthy_names(t.operand, out)
+
+    n_tests = 0
+    n_sites = 0
+    for f in repo.all_funcs():
+        c = None
+        pm = None
+        for n in walk_local(f.node):
+            if not isinstance(n, (ast.If, ast.While, ast.IfExp)):
+                continue
+            names: list = []
+            truthy_names(n.test, names)
+            for nm in names:
+                c = c or canon(f)
+                pm = pm or parents_map(f.node)
+                at = n
+                while not isinstance(at, ast.stmt) and at in pm:
+                    at = pm[at]
+                srcs = [s for s in (optional_int_source(a) for a in c.alts(nm, at)) if s]
+                n_tests += 1
+                if srcs:
+                    n_sites += 1
+                    rep.bad(rule, f"{f.short}: presence of the optional integer from {srcs[0]} is tested by truthiness",
+                            f"`{norm(n.test)[:80]}`: the value 0 takes the branch written for \"absent\"", f.loc(n))
+    rep.ok(rule, "optional integers are tested with `is None` / `is not None`", f"{n_tests} truthiness tests on locals examined, {n_sites} on an optional integer", "")
